@@ -1,5 +1,7 @@
 import GeoVerif.Corr.Proto
 import GeoVerif.Model.GeodInverse
+import GeoVerif.Model.GeodInvSeries
+import GeoVerif.FP.RunErr
 /-! Correspondence for C02: canonical-form bookkeeping of the inverse solvers, and output ranges -/
 namespace GeoVerif.Corr.C02
 open GeoVerif GeoVerif.Proto GeoVerif.GeodInverse
@@ -7,7 +9,57 @@ open GeoVerif GeoVerif.Proto GeoVerif.GeodInverse
 /-- equal bits, or both zero (the sign of a zero is not part of the contract), or both NaN -/
 def sameZ (a b : F64) : Bool := F64.same a b || (a.isZero && b.isZero)
 
+/-! ### `Geodesic::Astroid`, `Geodesic::Lambda12` against `Model/GeodInvSeries.lean`
+
+As for the direct solver (`Corr/C01.lean`): the model is executed in the running-error arithmetic `RE`; the value is its
+binary64 evaluation, the tolerance is 4 × the first-order bound of the rounding error of that evaluation on these inputs. -/
+
+def pfl (s : String) : Option Float := if s.length != 16 then none else (hexToNat s).map fun n => Float.ofBits n.toUInt64
+
+def cmpRE (name : String) (impl : Float) (m : RE) : Option String :=
+  let d := Float.abs (impl - m.v)
+  if (impl.isNaN && m.v.isNaN) || impl == m.v || d ≤ 4 * m.e || (m.e.isNaN && !m.v.isNaN && !impl.isNaN) then none
+  else some s!"{name}: impl={impl} model={m.v} diff={d} bound={m.e}"
+
+open GeodInvSeries in
+def handleSeries (op : String) (args res : List String) : Option Verdict :=
+  match op with
+  | "astroid" => some <|
+    match args.mapM pfl, res.mapM pfl with
+    | some [x, y], some [k] =>
+      match cmpRE "k" k (astroid (RE.exact x) (RE.exact y)) with
+      | none => .ok
+      | some m => .bad s!"Geodesic::Astroid differs from Model/GeodInvSeries: {m}"
+    | _, _ => .bad "parse"
+  | "invstart" => some <|
+    match args.mapM pfl, res.mapM pfl with
+    | some [a, f, sbet1, cbet1, sbet2, cbet2, lam12],
+      some [tiny, eps0, dn1, dn2, slam12, clam12, sig12, salp1, calp1, salp2, calp2, dnm] =>
+      let e := RE.exact
+      let g := GeodLine.geodesic (e a) (e f) (e tiny) (e eps0)
+      let o := inverseStart g (e eps0) (e sbet1) (e cbet1) (e dn1) (e sbet2) (e cbet2) (e dn2) (e lam12) (e slam12) (e clam12)
+      let bads := [cmpRE "sig12" sig12 o.sig12, cmpRE "salp1" salp1 o.salp1, cmpRE "calp1" calp1 o.calp1, cmpRE "salp2" salp2 o.salp2,
+                   cmpRE "calp2" calp2 o.calp2, cmpRE "dnm" dnm o.dnm].filterMap id
+      if bads.isEmpty then .ok else .bad s!"Geodesic::InverseStart differs from Model/GeodInvSeries: {bads}"
+    | _, _ => .bad "parse"
+  | "lambda12" => some <|
+    match args.mapM pfl, res.mapM pfl with
+    | some [a, f, sbet1, cbet1, sbet2, cbet2, salp1, calp1, slam120, clam120],
+      some [tiny, eps0, dn1, dn2, lam12, salp2, calp2, sig12, ssig1, csig1, ssig2, csig2, eps, domg12, dlam12] =>
+      let e := RE.exact
+      let g := GeodLine.geodesic (e a) (e f) (e tiny) (e eps0)
+      let o := lambda12 g (e sbet1) (e cbet1) (e dn1) (e sbet2) (e cbet2) (e dn2) (e salp1) (e calp1) (e slam120) (e clam120)
+      let bads := [cmpRE "lam12" lam12 o.lam12, cmpRE "salp2" salp2 o.salp2, cmpRE "calp2" calp2 o.calp2, cmpRE "sig12" sig12 o.sig12,
+                   cmpRE "ssig1" ssig1 o.ssig1, cmpRE "csig1" csig1 o.csig1, cmpRE "ssig2" ssig2 o.ssig2, cmpRE "csig2" csig2 o.csig2,
+                   cmpRE "eps" eps o.eps, cmpRE "domg12" domg12 o.domg12, cmpRE "dlam12" dlam12 o.dlam12].filterMap id
+      if bads.isEmpty then .ok else .bad s!"Geodesic::Lambda12 differs from Model/GeodInvSeries: {bads}"
+    | _, _ => .bad "parse"
+  | _ => none
+
 def handle (op : String) (args res : List String) : Option Verdict :=
+  match handleSeries op args res with
+  | some v => some v
+  | none =>
   match op with
   | "invwrap" => some <|
     -- args: a f  lat1 lon1 lat2 lon2 | canonical input used by the harness (lat1c lat2c lon12c) | kernel = outputs on the canonical input
